@@ -30,8 +30,10 @@ def check(ctx):
     views = family_views(P, "Node")
     notifications(ctx, P, views, iters)
     class_writes(ctx, P, views, iters)
+    classchange_order(ctx, P, views, iters)
     interface(ctx, P)
     symmetry(ctx, P, iters)
+    probabilities(ctx, P)
     loops(ctx, P, iters)
     ctx.assume("user-defined trackers are outside the analysed program")
 
@@ -156,6 +158,27 @@ def class_writes(ctx, P, views, iters):
                                   "customer_class is rewritten while the customer is counted at this node, but the tracker is not told: class-keyed trackers then "
                                   "decrement a different key at release than they incremented at accept", pend.where, witness(st))
     ctx.floor("customer_class writes in node methods", n, 2)
+
+
+def classchange_order(ctx, P, views, iters):
+    ob = ctx.ob("CCORD", "change_state_classchange(self, ind) is called after customer_class is rewritten and before previous_class is overwritten (the handlers read both)")
+    for view in views:
+        cls, fn = view.method("change_customer_class_while_waiting")
+
+        def keep(e):
+            if e.kind == "assign" and not e.d.get("local"):
+                return e.d["target"].endswith(".customer_class") or e.d["target"].endswith(".previous_class")
+            return _notif(e) and e.d["meth"] == "change_state_classchange"
+        w = Walker(P, view, keep=keep, inline=lambda ev: False, loop_iters=iters)
+        for st in w.paths_of(cls, fn):
+            if st.status == "raise":
+                continue
+            seq = ["N" if x.kind == "call" else ("C" if x.d["target"].endswith(".customer_class") else "P") for x in st.events]
+            ob.ok("%s:%s" % (view.name, "".join(seq)), "%s.change_customer_class_while_waiting: %s" % (view.name, " -> ".join(x.text[:50] for x in st.events)))
+            if seq != ["C", "N", "P"]:
+                ctx.violation(ob, "R4.must-precede", "%s.change_customer_class_while_waiting" % cls.name, "".join(seq), "classchange-notification-order",
+                              "the tracker must be told after the class is rewritten and before previous_class is overwritten: it moves a unit from the key of previous_class to the key of customer_class", loc(fn), witness(st))
+                break
 
 
 def interface(ctx, P):
@@ -293,6 +316,19 @@ def symmetry(ctx, P, iters):
             if sum(d for k, d in num) != 0 or len(set(k.rsplit("[", 1)[0] for k, d in num)) > 1:
                 ctx.violation(ob, "R2.tracker-symmetry", c, "change_state_classchange: %s" % (eff,), "classchange-not-a-move",
                               "a class change must move exactly one unit between two class keys of the same node", loc(P.classes[c].node))
+            elif num:
+                # the unit leaves the key accept() counted it under (evaluated at the class held until now: previous_class) and joins the key of the new class
+                acc_keys = [k for g2, e2, o2 in acc for k, d in e2 if d == 1]
+                want = {}
+                for k in acc_keys:
+                    if "customer_class" in k:
+                        want[k] = want.get(k, 0) + 1
+                        kk = k.replace(".customer_class", ".previous_class")
+                        want[kk] = want.get(kk, 0) - 1
+                if want and dict(num) != want:
+                    ctx.violation(ob, "R2.tracker-symmetry", c, "change_state_classchange: %s" % (sorted(num),), "classchange-wrong-keys",
+                                  "a class change while waiting must decrement the key accept() used, taken at the class held so far (previous_class), and increment it at the new class; "
+                                  "expected %s" % sorted(want.items()), loc(P.classes[c].node))
     # timestamp: append [clock, state] only when the hashed state changed
     ob2 = ctx.ob("TS", "timestamp() appends [current_time, state] iff the hashed state differs from the last history entry")
     for c in classes:
@@ -319,6 +355,41 @@ def symmetry(ctx, P, iters):
         ob2.ok("%s.timestamp" % c)
         if not okk:
             ctx.unrecognised("TS: no history.append in %s.timestamp" % c)
+
+
+def probabilities(ctx, P):
+    ob = ctx.ob("PROB", "state_probabilities divides every accumulated duration by the sum of all accumulated durations (shares sum to 1 by construction)")
+    view = P.view("StateTracker")
+    cls, fn = view.method("state_probabilities")
+    rets = [x for x in ast.walk(fn) if isinstance(x, ast.Return) and x.value is not None]
+    dname = unparse(rets[-1].value) if rets else "?"
+    tot = [x for x in ast.walk(fn) if isinstance(x, ast.Assign) and isinstance(x.targets[0], ast.Name) and unparse(x.value).replace(" ", "") == "sum(%s.values())" % dname]
+    tot_all = [x for x in ast.walk(fn) if isinstance(x, ast.Assign) and tot and unparse(x.targets[0]) == unparse(tot[0].targets[0])]
+    okk = len(tot) == 1 and len(tot_all) == 1 and not any(isinstance(p_, (ast.If, ast.For, ast.While)) for p_ in _anc(tot[0], fn))
+    div = False
+    if okk:
+        tn = unparse(tot[0].targets[0])
+        for lp in [x for x in ast.walk(fn) if isinstance(x, ast.For) and unparse(x.iter) in (dname, dname + ".keys()")]:
+            v = unparse(lp.target)
+            for x in ast.walk(lp):
+                if isinstance(x, ast.AugAssign) and isinstance(x.op, ast.Div) and unparse(x.target) == "%s[%s]" % (dname, v) and unparse(x.value) == tn:
+                    div = True
+                if isinstance(x, ast.Assign) and unparse(x.targets[0]) == "%s[%s]" % (dname, v) and unparse(x.value).replace(" ", "") == "%s[%s]/%s" % (dname, v, tn):
+                    div = True
+    ob.ok("StateTracker.state_probabilities", "tot = sum(%s.values()); each entry /= tot" % dname)
+    if not (okk and div):
+        ctx.violation(ob, "R5.probability-normalisation", "StateTracker.state_probabilities", "normalisation of %s" % dname, "not-normalised-by-total",
+                      "the probabilities must be each state's accumulated time divided by the total accumulated time, unconditionally (otherwise they need not sum to 1)", loc(fn))
+    for c in P.subclasses("StateTracker")[1:]:
+        if "state_probabilities" in P.classes[c].methods:
+            ctx.violation(ob, "R5.probability-normalisation", c, "state_probabilities override", "override", "a tracker overrides the shared probability computation", loc(P.classes[c].node))
+
+
+def _anc(n, stop):
+    p_ = getattr(n, "_parent", None)
+    while p_ is not None and p_ is not stop:
+        yield p_
+        p_ = getattr(p_, "_parent", None)
 
 
 def loops(ctx, P, iters):
